@@ -112,9 +112,10 @@ def ensure_built(repo=None, verbose=True):
     for e in _exts(repo):
         new_state[e['name']] = dict(c=_sha(e['c']), so=_sha(e['so']))
     os.makedirs(os.path.dirname(state_path), exist_ok=True)
-    with open(state_path + '.tmp', 'w') as fh:
+    tmp = f'{state_path}.{os.getpid()}.tmp'       # per-process name: several checks / replays may run ensure_built at once
+    with open(tmp, 'w') as fh:
         json.dump(new_state, fh)
-    os.replace(state_path + '.tmp', state_path)
+    os.replace(tmp, state_path)
     return dict(rebuilt=rebuilt, stale_pyx=stale_pyx, build_s=round(time.time() - t0, 2), notes=info)
 
 
